@@ -222,3 +222,11 @@ Definition ev_no_bs_nl (e : evalue) : bool := match e with EStr s => no_bs_nl s 
 Definition g_no_bs_nl (vs : list evalue) : bool := forallb ev_no_bs_nl vs.
 Definition ev_is_str (e : evalue) : bool := match e with EStr _ => true | EInt _ => false end.
 Definition ev_is_int (e : evalue) : bool := match e with EInt _ => true | EStr _ => false end.
+
+(* ---- what is SENT for a member in positions that stringify it (header: str(x); path: DQ...DQ.format(x=x); f-strings) ----
+   str_enum.py.jinja / int_enum.py.jinja define __str__ as str(self.value); Enum.__format__ delegates to __str__ (CPython 3.12), so
+   str(member) = format(member) = the text of the declared value *)
+Definition value_text (v : jval) : option str :=
+  match v with JStr s => Some s | JInt z => Some (dec_Z z) | _ => None end.
+Definition enum_text (cls : enum_class) (k : str) : option str :=
+  match enum_value cls k with Some v => value_text v | None => None end.
